@@ -404,6 +404,9 @@ class Runner:
             env["LD_LIBRARY_PATH"] = self.libdir + ":" + env["LD_LIBRARY_PATH"]
         try:
             p = core.sh(cmd, timeout=120, env=env, cwd=self.ctx.work)
+            if p.returncode != 0 and "loading shared libraries" in p.stderr:
+                self.ctx.ensure_simgrid(["simgrid", "smpimain"])     # the shared build was being relinked: wait, retry
+                p = core.sh(cmd, timeout=120, env=env, cwd=self.ctx.work)
         except Exception as e:           # timeout
             return -9, [], str(e)
         return p.returncode, p.stdout.split("\n"), p.stderr
@@ -551,6 +554,11 @@ def run(ctx):
     ctx.lean_prove()
     drv = ctx.lean_exe()
     h = ctx.build_harness("harness.c", smpi=True, lang="c")
+    if h is None and ctx.broken and ctx.broken[-1].get("kind") == "harness-build":
+        # libsimgrid.so of the shared build was being relinked by another check: wait for it and retry once
+        ctx.broken.pop()
+        ctx.ensure_simgrid()
+        h = ctx.build_harness("harness.c", smpi=True, lang="c")
     if not (drv and h):
         return
     R = Runner(ctx, h)
